@@ -9,6 +9,7 @@ import (
 	"testing"
 	dt "verifharness/dertree"
 
+	"github.com/zmap/zlint/v3"
 	"github.com/zmap/zlint/v3/lint"
 	"pgregory.net/rapid"
 
@@ -211,6 +212,10 @@ func TestC04(t *testing.T) {
 	// (a) single-feature scope matrix, enumerated in both tiers
 	bases := scopeBases()
 	k := 0
+	// ... each matrix certificate is also linted through ONE certificate value that is overwritten with the next
+	// certificate's fields (a caller recycling its struct, or building certificates in place): what a lint run says
+	// depends on the fields, not on the address they live at
+	slot := new(zx509Cert)
 	for _, b := range bases {
 		bs := baseStage(b)
 		for e := -1; e < len(gen.AllEKUs); e++ {
@@ -235,6 +240,15 @@ func TestC04(t *testing.T) {
 						}
 					}
 					noteNT(c, run, bs)
+					if pc, ok := gen.ParseCert(der); ok && run.RS != nil {
+						*slot = *pc
+						if got, want := engine.Digest(zlint.LintCertificateEx(slot, lint.GlobalRegistry())), engine.Digest(run.RS); got != want {
+							rec.Class("matrix_recycled_struct")
+							if rec.Report("c04", "recycled-struct", fmt.Sprintf("the certificate %v gets other verdicts (%s) when its fields are written into a certificate value that was linted before as another certificate than on a value of its own (%s)", c.Ops, got, want), c) {
+								t.Fatalf("c04 matrix %s %+v: verdicts depend on the address of the certificate value", b.Name, s)
+							}
+						}
+					}
 					if k%131 == 0 {
 						rec.Sample(sampleCase(c, map[string]interface{}{"statuses": statusCounts(engine.Verdicts(run.RS))}))
 					}
@@ -329,6 +343,46 @@ func TestC04(t *testing.T) {
 			if sig, msg, _ := judgeLifecycle(rec, c); msg != "" {
 				if rec.Report("c04", sig, msg, c) {
 					t.Errorf("c04 corpus %s: %s: %s", o.Name, sig, msg)
+				}
+			}
+		}
+	}
+	// (b') enumerated: a configuration installed on the global registry, then a filter of every shape (sources only,
+	// names only, a pattern, chains): the filtered registry inherits the configuration, so the framework's result is
+	// what the rule body returns on an instance configured from it
+	{
+		sens := sensitiveObjects()
+		k := 0
+		for _, ci := range engine.Configurables() {
+			alt, ok := altDocs[ci.Name]
+			if !ok {
+				continue
+			}
+			src := lintSourceOf(ci.Name)
+			re := "^" + ci.Name[:len(ci.Name)/2]
+			shapes := [][]engine.FilterSpec{
+				{{IncludeSources: []string{src}}}, {{ExcludeSources: []string{"ETSI_ESI"}}}, {{IncludeSources: []string{src}, ExcludeSources: []string{"ETSI_ESI"}}},
+				{{IncludeNames: []string{ci.Name}}}, {{ExcludeNames: []string{"e_ca_country_name_missing"}}}, {{NameFilter: &re}},
+				{{IncludeSources: []string{src}}, {IncludeNames: []string{ci.Name}}}, {{ExcludeNames: []string{"e_ca_country_name_missing"}}, {IncludeSources: []string{src}}},
+			}
+			ill := ci.Name + " = 5\n"
+			for _, o := range sens[ci.Name] {
+				for _, fs := range shapes {
+					for _, doc := range []string{alt, ill} {
+						k++
+						if !stats.Mine(k) {
+							continue
+						}
+						doc := doc
+						c := engine.Case{Kind: o.Kind, DER: o.DER, Base: o.Name, Filters: fs, Config: &doc, ConfigFirst: true, Note: "configured, then filtered"}
+						rec.Eval()
+						rec.Class("configured_then_filtered")
+						if sig, msg, _ := judgeLifecycle(rec, c); msg != "" {
+							if rec.Report("c04", sig, msg, c) {
+								t.Fatalf("c04 %s configured then filtered: %s: %s", o.Name, sig, msg)
+							}
+						}
+					}
 				}
 			}
 		}
